@@ -3,10 +3,14 @@ from checks.gdscommon import same, nontrivial, classify  # noqa
 CONFIG = {
     "manifest": {'level_text': "Coq theorem reader_accepts_spec (closed under the global context): for EVERY byte stream accepted by a strict grammar-directed decoder of the GDSII stream format (even record lengths; HEADER BGNLIB LIBNAME {library options} UNITS {structure} ENDLIB; BOUNDARY and BOX, PATH with optional PATHTYPE / WIDTH / BGNEXTN / ENDEXTN, SREF and AREF with optional STRANS [MAG] [ANGLE], TEXT with optional PRESENTATION / PATHTYPE / WIDTH / STRANS, any number of ELFLAGS / PLEX, multi-record XY, PROPATTR/PROPVALUE pairs, closed boundaries) the reader model - a statement-level mirror of read_gds's flat record switch with its mutable state - returns exactly the layout the grammar assigns; plus gds_roundtrip (every library the writer model emits is read back to the library saved) and per-field decoding lemmas for all in-range values. The strict decoder is extracted and run as an independent oracle on every gdstk-written file (writer conformance, per run) and on streams from an independent specification-level encoder; reader and writer models are tied to /repo byte for byte / dump for dump. The case labels of read_gds's record switch are regenerated from library.cpp on every run (grouped by shared body) and proved to be the dispatch of the model: same groups, one kind per group, distinct kinds, nothing else dispatched below 256 (read_gds_switch_as_modelled, read_gds_dispatch_uniform_and_distinct).", 'level_note': "'Every file gdstk writes is accepted by the strict decoder' is proved for the writer MODEL (writer_conforms, for every well-formed grid library) and validated per run on the real writer's files (extracted spec_decode as S-line oracle, Library::write_gds and GdsWriter output). The grammar is a transcription of the stream format made without the document at hand; MAG/ANGLE are 8-byte patterns (C19). One defect (WIDTH carried over between PATH elements) was repaired by a fix: commit - the theorem would be false of the unfixed reader.", 'technique': "Coq proof that the reader's state machine agrees with a strict grammar decoder on all accepted streams + round-trip theorem + extracted strict decoder as oracle + differential run"},
     "prop_file": "Properties_C03",
+    "extra_prop_files": ["Properties_C03W"],   # GdsWriter / RawCell::to_gds sessions (GdsWriterModel.v)
     "units": [
         {"harness": "gds", "driver": "gds", "extracted": ["gds"], "extract_file": "Extract_Gds", "kinds": "spec,wr,rd,gw"},
         # PATH records that Library::write_gds emits for simple FlexPaths / RobustPaths built through the path API (tapers, bends,
         # transformations, extended ends, repetitions: one complete record per element and offset) must decode to what was saved
+        # sessions of the incremental writer (GdsWriter: init / write_cell / write_rawcell / close, several writers at once) and
+        # Library::write_gds with raw cells, byte for byte against GdsWriterModel.v; every produced file through spec_decode
+        {"harness": "gdswriter", "driver": "gdswriter", "extracted": ["gdswriter"], "extract_file": "Extract_Gdswriter", "module": "checks.gdswriter", "kinds": "ses,lib,dec", "thorough_seeds": 1},
         {"harness": "c07_flexpath", "kinds": "gds,crash", "thorough_seeds": 1},
         {"harness": "c08_robustpath", "kinds": "gds,crash", "thorough_seeds": 1},
     ],
